@@ -336,9 +336,13 @@ func (b *c14Backend) buildDevice(d string, salt int) *agd.Device {
 		Name:             agd.DeviceName(fmt.Sprintf("name-%s-%d", d, r.Intn(100))),
 		FilteringEnabled: r.Intn(2) == 0,
 	}
-	if r.Intn(2) == 0 {
+	switch r.Intn(4) {
+	case 0, 1:
 		dev.Auth = &agd.AuthSettings{Enabled: true, DoHAuthOnly: r.Intn(2) == 0,
 			PasswordHash: agdpasswd.NewPasswordHashBcrypt([]byte(fmt.Sprintf("$2a$04$hash%d", r.Intn(9))))}
+	case 2:
+		// authentication required, DoH only, no password: identified by the basic-auth user name alone
+		dev.Auth = &agd.AuthSettings{Enabled: true, DoHAuthOnly: r.Intn(3) != 0, PasswordHash: agdpasswd.AllowAuthenticator{}}
 	}
 	if td.linked != "none" {
 		dev.LinkedIP = c14Linked[td.linked]
